@@ -33,7 +33,7 @@ if check_only:
 demo_cmd = meta['demo_cmd']
 demo_cmd = re.sub(r'^cd \S+ && ', '', demo_cmd)
 demo_cmd = re.sub(r'git apply _seed/demo\.diff && ', '', demo_cmd)
-demo_cmd = re.sub(r'\s+\(fallback:.*$', '', demo_cmd, flags=re.S)
+demo_cmd = re.sub(r'\s{2,}\(.*$|\s+\((fallback|equivalently|or)\b.*$', '', demo_cmd, flags=re.S)
 demo_cmd = re.sub(r'\s+#.*$', '', demo_cmd)
 if not check_only:
     # 1. demo on the unchanged tree
